@@ -12,7 +12,7 @@ from . import common
 
 LEVEL = "exploration"
 EXHAUSTIVE = False
-RULE = ("case = random field layout (0-2 levels of inheritance, overridden defaults, required/defaulted/factory/"
+RULE = ("case = random field layout (0-2 levels of inheritance or a diamond B <- C, E <- F(C, E) with a root field re-declared by either sibling, overridden defaults, required/defaulted/factory/"
         "kw_only/KW_ONLY/init=False/InitVar/ClassVar members, converted field types, aliases with and without "
         "allow_deserialization_not_by_alias, slots/frozen, mixin or plain-through-codec); for every layout ALL "
         "subsets of its init keys (<= 2^8) are fed to from_dict, poison values planted under non-init names. Oracle: "
@@ -131,15 +131,23 @@ def run_case(seed, tier, rec, st):
     try:
         counter = [rng.randint(1, 50)]
         levels = rng.choice([1, 2, 2, 3])
+        # diamond: B root, C(B) and E(B) siblings, leaf F(C, E); fields are collected over the reversed MRO
+        # (B, E, C, F), so a field re-declared by both siblings is C's
+        diamond = levels == 3 and rng.random() < 0.5
+        nbodies = 4 if diamond else levels
         mixin = rng.random() < 0.7
         allow = rng.random() < 0.4
         lazy = rng.random() < 0.15
         dc_args = rng.choice(["", "", "", "(slots=True)", "(frozen=True)"])
+        if diamond and "slots" in dc_args:
+            dc_args = ""
         bodies = []
         has_default = False
-        for lv in range(levels):
-            k = rng.randint(0 if lv < levels - 1 else 1, 3 if levels > 1 else 5)
-            fs = gen_level(rng, "bcd"[lv], k, not has_default, counter)
+        for lv in range(nbodies):
+            k = rng.randint(0 if lv < nbodies - 1 else 1, 3 if nbodies > 1 else 5)
+            if diamond:
+                k = min(k, 2)
+            fs = gen_level(rng, "bcdf"[lv], k, not has_default, counter)
             if any(f["role"] in ("def", "fac") for f in fs) and not any(f["role"] == "KW" for f in fs):
                 has_default = True
             bodies.append(fs)
@@ -148,29 +156,43 @@ def run_case(seed, tier, rec, st):
         if total_init > 8 or total_init == 0:
             rec.count("layout_skipped")
             return
-        # override the default of an inherited defaulted field in a later level
-        override = None
-        if levels > 1:
-            cands = [f for f in bodies[0] if f["role"] == "def"]
-            if cands and rng.random() < 0.5:
+        # re-declare an inherited field in a later class with another default (a root member that is required or
+        # init=False may become an ordinary defaulted field)
+        overrides = []
+        if nbodies > 1:
+            roles = ("def", "noinit", "req") if diamond else ("def",)
+            cands = [f for f in bodies[0] if f["role"] in roles]
+            if cands and rng.random() < (0.8 if diamond else 0.5):
                 base_f = rng.choice(cands)
-                counter[0] += 1
-                override = dict(base_f, n=counter[0], override_level=rng.randint(1, levels - 1))
+                where = [lv for lv in (1, 2, 3) if rng.random() < (0.6 if lv < 3 else 0.2)] if diamond else [rng.randint(1, levels - 1)]
+                for lv in where:
+                    counter[0] += 1
+                    overrides.append(dict(base_f, n=counter[0], override_level=lv, role="def"))
         cfg = []
         if allow:
             cfg.append("allow_deserialization_not_by_alias = True")
         if lazy:
             cfg.append("lazy_compilation = True")
         src = []
-        names = ["B", "C", "E"][:levels]
+        names = ["B", "C", "E", "F"][:nbodies]
+        class_fields = {}
         for lv, fs in enumerate(bodies):
-            base = ("DataClassDictMixin" if mixin else "") if lv == 0 else names[lv - 1]
+            if lv == 0:
+                base = "DataClassDictMixin" if mixin else ""
+            elif diamond:
+                base = "B" if lv < 3 else "C, E"
+            else:
+                base = names[lv - 1]
             src.append(f"@dataclass{dc_args}")
             src.append(f"class {names[lv]}" + (f"({base})" if base else "") + ":")
             body = render_level(fs)
-            if override and override["override_level"] == lv:
-                body += render_level([override])
-            if cfg and lv == levels - 1:
+            own = [f for f in fs if f["role"] != "KW"]
+            for o in overrides:
+                if o["override_level"] == lv:
+                    body += render_level([o])
+                    own.append(o)
+            class_fields[names[lv]] = own
+            if cfg and lv == nbodies - 1:
                 body.append("    class Config(BaseConfig):")
                 body += [f"        {c}" for c in cfg]
             src += body or ["    pass"]
@@ -184,21 +206,29 @@ def run_case(seed, tier, rec, st):
             raise
         cls = fam.get(names[-1])
         dec = cls.from_dict if mixin else BasicDecoder(cls).decode
-        # effective field table in declaration (annotation) order
-        order = []
-        spec = {}
-        for fs in bodies:
-            for f in fs:
-                if f["role"] == "KW":
-                    continue
-                if f["name"] not in spec:
-                    order.append(f["name"])
-                spec[f["name"]] = f
-        if override:
-            spec[override["name"]] = override
+        # effective field table, the stdlib rule: every dataclass of the reversed MRO contributes its COMPLETE field
+        # table (inherited members included), then the class's own members replace in place.  In a diamond
+        # F(C, E) a root field re-declared by E only is therefore the root's again (C's inherited view comes last).
+        def effective(c):
+            out = {}
+            for b in c.__mro__[-1:0:-1]:
+                if fam.module.__dict__.get(b.__name__) is b and b.__name__ in class_fields:
+                    out.update(effective(b))
+            for f in class_fields[c.__name__]:
+                out[f["name"]] = f
+            return out
+        spec = effective(cls)
+        order = list(spec)
+        # the model must agree with dataclasses itself before it judges mashumaro
+        std = {f.name: f for f in dataclasses.fields(cls)}
+        mine = [n for n in order if spec[n]["role"] not in ("initvar", "classvar")]
+        if mine != list(std) or any((std[n].default is dataclasses.MISSING and std[n].default_factory is dataclasses.MISSING)
+                                     != (spec[n]["role"] in ("req", "kwreq")) for n in mine):
+            rec.count("harness_model_disagrees_with_dataclasses")
+            return
         init_fields = [n for n in order if spec[n]["role"] in ("req", "def", "fac", "kwreq", "kwdef")]
         nonit = [n for n in order if spec[n]["role"] in ("noinit", "initvar", "classvar")]
-        layout_sig = tuple((spec[n]["role"], spec[n]["tk"], bool(spec[n].get("alias"))) for n in order) + (allow, mixin, dc_args)
+        layout_sig = tuple((spec[n]["role"], spec[n]["tk"], bool(spec[n].get("alias"))) for n in order) + (allow, mixin, dc_args, diamond)
         sampled = False
         for mask in itertools.product([False, True], repeat=len(init_fields)):
             rec.evaluation()
@@ -235,9 +265,11 @@ def run_case(seed, tier, rec, st):
                 if rng.random() < 0.6:
                     d[name] = "POISON-non-init"
                 if spec[name]["role"] == "noinit":
-                    exp[name] = spec[name]["default"]
+                    # not a constructor parameter: dataclasses leaves the class attribute in place (in a diamond the
+                    # attribute found along the MRO, which need not be the default of the winning Field)
+                    exp[name] = getattr(cls, name) if diamond else spec[name]["default"]
             det = lambda **kw: dict({"source": "\n".join(src), "input": common.short(d, 400), "present": [n for p, n in zip(mask, init_fields) if p]}, **kw)
-            facts = {"allow_not_by_alias": allow, "levels": levels, "override": bool(override)}
+            facts = {"allow_not_by_alias": allow, "levels": levels, "override": bool(overrides), "diamond": diamond}
             try:
                 r = dec(dict(d))
                 r2 = dec(dict(d))
